@@ -43,7 +43,7 @@ pub fn check_utf8(s: &Schema, m: &DynMsg, bad: &mut Vec<String>) {
 pub fn exec(verb: &str, items: &[Sexp], o: &mut Oracle) -> Option<String> {
     let a = |i: usize| items.get(i).and_then(|x| x.atom());
     let bad = || Some("bad-request".to_string());
-    let bt = match a(1) { Some("bt") => true, Some("hm") => false, _ => return if matches!(verb, "pbenc" | "pbdec" | "pbmrg" | "pbdld" | "pbcat") { bad() } else { None } };
+    let bt = match a(1) { Some("bt") => true, Some("hm") => false, _ => return if matches!(verb, "pbenc" | "pbdec" | "pbmrg" | "pbdld" | "pbcat" | "pbunk" | "pbilv") { bad() } else { None } };
     Some(match verb {
         "pbenc" | "pbcat" => {
             if a(2) != Some(flag_name()) { return Some("bad-flag".into()) }
@@ -77,11 +77,15 @@ pub fn exec(verb: &str, items: &[Sexp], o: &mut Oracle) -> Option<String> {
                 cat.extend_from_slice(&b2);
                 let whole = DynMsg::decode_dyn(&s, i, bt, Bytes::from(cat));
                 // decode the first, merge the second into it
-                let mut step = m.clone();
-                let stepped = step.merge(b2.clone().freeze()).map(|_| step);
+                let stepped = DynMsg::decode_dyn(&s, i, bt, b.clone().freeze()).and_then(|mut step| step.merge(b2.clone().freeze()).map(|_| step));
                 match (&whole, &stepped) {
                     (Ok(x), Ok(y)) if m_same(x, y) => {}
                     _ => o.fail("C18", format!("decode(a ++ b) {:?} != decode a then merge b {:?}", whole.as_ref().map(m_sexp).map_err(|e| e.to_string()), stepped.as_ref().map(m_sexp).map_err(|e| e.to_string()))),
+                }
+                // against the specification: merge of the two values as they survive their own encoding
+                if let (Ok(x), Ok(da), Ok(db)) = (&whole, DynMsg::decode_dyn(&s, i, bt, b.clone().freeze()), DynMsg::decode_dyn(&s, i, bt, b2.clone().freeze())) {
+                    let spec = merge_spec(&da, &db);
+                    if !m_same(x, &spec) { o.fail("C18", format!("decode(a ++ b) = {} but the merge specification gives {}", m_sexp(x), m_sexp(&spec))); }
                 }
                 match whole { Ok(x) => format!("ok {}", m_sexp(&x)), Err(e) => class(&e) }
             }
@@ -106,6 +110,20 @@ pub fn exec(verb: &str, items: &[Sexp], o: &mut Oracle) -> Option<String> {
                 }
                 Err(e) => class(&e),
             }
+        }
+        "pbunk" | "pbilv" => {
+            // pbunk <fl> <schema> <i> <with> <without>   : bytes with / without unknown records  -> decode(with); oracle: same as decode(without)
+            // pbilv <fl> <schema> <i> <interleaved> <concatenated>                               -> decode(interleaved); oracle: same as decode(concatenated)
+            let (Some(s), Some(i), Some(x), Some(y)) = (items.get(2).and_then(Schema::of_sexp), a(3).and_then(|x| x.parse::<usize>().ok()), a(4).and_then(unhex), a(5).and_then(unhex)) else { return bad() };
+            let s = Arc::new(s);
+            let dx = DynMsg::decode_dyn(&s, i, bt, Bytes::from(x));
+            let dy = DynMsg::decode_dyn(&s, i, bt, Bytes::from(y));
+            let same = match (&dx, &dy) { (Ok(p), Ok(q)) => m_same(p, q), (Err(e), Err(f)) => class(e) == class(f), _ => false };
+            if !same {
+                let show = |r: &Result<DynMsg, pilota::prost::DecodeError>| match r { Ok(m) => m_sexp(m), Err(e) => class(e) };
+                o.fail("C18", format!("{}: {} vs {}", if verb == "pbunk" { "unknown fields changed the result" } else { "interleaving changed the result" }, show(&dx), show(&dy)));
+            }
+            match dx { Ok(m) => format!("ok {}", m_sexp(&m)), Err(e) => class(&e) }
         }
         _ => return None,
     })
@@ -221,4 +239,105 @@ pub fn gen_message_level(r: &mut Rng, thorough: bool, out: &mut Vec<String>) {
             if k % 3 == 0 { out.push(format!("pbdld {} {} {} {}", fl, s.sexp(), i, hex(&m.encode_length_delimited_to_vec()))); }
         }
     }
+}
+
+// ---------------------------------------------------------------- C18: concatenation, unknown fields, interleaving
+use super::adv::{group_ladder, walk};
+use super::rtverbs::{put_key, put_varint};
+
+/// a well-formed record of field `tag` (any wire type; groups may nest)
+pub fn gen_unknown_record(r: &mut Rng, tag: u32, depth: usize) -> Vec<u8> {
+    let mut v = vec![];
+    match r.below(if depth == 0 { 4 } else { 5 }) {
+        0 => { put_key(tag, 0, &mut v); put_varint(gen_u64(r), &mut v); }
+        1 => { put_key(tag, 1, &mut v); v.extend((0..8).map(|_| r.next() as u8)); }
+        2 => { put_key(tag, 5, &mut v); v.extend((0..4).map(|_| r.next() as u8)); }
+        3 => { put_key(tag, 2, &mut v); let n = r.below(6); put_varint(n, &mut v); v.extend((0..n).map(|_| r.next() as u8)); }
+        _ => { put_key(tag, 3, &mut v); for _ in 0..r.below(3) { let t = 1 + r.below(40) as u32; v.extend(gen_unknown_record(r, t, depth - 1)); } put_key(tag, 4, &mut v); }
+    }
+    v
+}
+
+fn unused_tag(r: &mut Rng, s: &Schema) -> u32 {
+    let used: Vec<u32> = s.msgs.iter().flat_map(|m| m.iter().flat_map(|d| d.tags())).collect();
+    loop { let t = match r.below(3) { 0 => 1 + r.below(30) as u32, 1 => *r.pick(&TAG_EDGES), _ => gen_tag(r) }; if !used.contains(&t) && t != 1 && t != 2 { return t; } }
+}
+
+/// insert unknown records at record boundaries of `valid` (top level, and inside one nested message payload)
+fn with_unknown(r: &mut Rng, s: &Schema, idx: usize, valid: &[u8]) -> Vec<u8> {
+    let tag = unused_tag(r, s);
+    let recs = walk(valid);
+    let mut out = vec![];
+    let mut pos = 0;
+    let nested_at = if recs.is_empty() { usize::MAX } else { r.below(recs.len() as u64 * 2) as usize };
+    for (n, rec) in recs.iter().enumerate() {
+        if r.chance(1, 3) { out.extend(gen_unknown_record(r, tag, 2)); }
+        // nested: a length-delimited record of a field declared with a message type gets a record inserted inside
+        let decl_msg = s.decls(idx).iter().any(|d| match d {
+            Decl::Single { tag: t, ty: FTy::Msg(_), .. } | Decl::Rep { tag: t, ty: FTy::Msg(_) } => (*t as u64) == key_tag(valid, rec.key_pos),
+            Decl::Oneof(vs) => vs.iter().any(|(t, ty)| matches!(ty, FTy::Msg(_)) && (*t as u64) == key_tag(valid, rec.key_pos)),
+            _ => false });
+        if n == nested_at && decl_msg && rec.wt == 2 {
+            let lp = rec.len_pos.unwrap();
+            let mut p = lp; while valid[p] >= 0x80 { p += 1; } p += 1;
+            let inner = &valid[p..rec.end];
+            let irecs = walk(inner);
+            let cut = if irecs.is_empty() { 0 } else { irecs[r.below(irecs.len() as u64) as usize].key_pos };
+            let mut ni = inner[..cut].to_vec(); ni.extend(gen_unknown_record(r, tag, 2)); ni.extend_from_slice(&inner[cut..]);
+            out.extend_from_slice(&valid[rec.key_pos..lp]); put_varint(ni.len() as u64, &mut out); out.extend(ni);
+        } else { out.extend_from_slice(&valid[pos..rec.end]); }
+        pos = rec.end;
+    }
+    out.extend_from_slice(&valid[pos..]);
+    if r.chance(1, 2) { out.extend(gen_unknown_record(r, tag, 2)); }
+    out
+}
+fn key_tag(b: &[u8], p: usize) -> u64 { let mut v = 0u64; let mut q = p; let mut sh = 0; loop { let x = b[q]; v |= ((x & 0x7f) as u64) << sh; if x < 0x80 { break; } sh += 7; q += 1; } v >> 3 }
+
+/// an interleaving of the records of `x ++ y` that keeps, per struct field (a oneof counts as one field), the order of its records
+fn interleave(r: &mut Rng, s: &Schema, idx: usize, cat: &[u8]) -> Vec<u8> {
+    let recs = walk(cat);
+    let slot_of = |t: u64| s.decls(idx).iter().position(|d| d.tags().iter().any(|x| *x as u64 == t)).map(|p| p as u64).unwrap_or(1_000_000 + t);
+    let mut queues: Vec<(u64, std::collections::VecDeque<&[u8]>)> = vec![];
+    for rec in &recs {
+        let sl = slot_of(key_tag(cat, rec.key_pos));
+        let bytes = &cat[rec.key_pos..rec.end];
+        match queues.iter_mut().find(|q| q.0 == sl) { Some(q) => q.1.push_back(bytes), None => queues.push((sl, std::iter::once(bytes).collect())) }
+    }
+    let mut out = vec![];
+    while !queues.is_empty() {
+        let k = r.below(queues.len() as u64) as usize;
+        out.extend_from_slice(queues[k].1.pop_front().unwrap());
+        if queues[k].1.is_empty() { queues.remove(k); }
+    }
+    out
+}
+
+pub fn gen_merge_level(r: &mut Rng, thorough: bool, out: &mut Vec<String>) {
+    let n = |q: usize, t: usize| if thorough { t } else { q };
+    let mut schemas = fixed_schemas();
+    for _ in 0..n(40, 600) { schemas.push(gen_schema(r)); }
+    for (si, s) in schemas.into_iter().enumerate() {
+        let s = Arc::new(s);
+        if s.msgs.is_empty() { continue; }
+        let reps = if si < 5 { n(20, 200) } else { n(4, 10) };
+        for _ in 0..reps {
+            let i = r.below(s.msgs.len() as u64) as usize;
+            let bt = r.chance(1, 2);
+            let fl = if bt { "bt" } else { "hm" };
+            let dp = 1 + r.below(3) as usize;
+            let x = gen_msg(r, &s, i, bt, dp);
+            let y = gen_msg(r, &s, i, bt, dp);
+            out.push(format!("pbcat {} {} {} {} {} {}", fl, flag_name(), s.sexp(), i, m_sexp(&x), m_sexp(&y)));
+            let (mut bx, mut by) = (BytesMut::new(), BytesMut::new());
+            x.encode_raw(&mut bx); y.encode_raw(&mut by);
+            out.push(format!("pbmrg {} {} {} {} {}", fl, s.sexp(), i, m_sexp(&x), hex(&by)));
+            let mut cat = bx.to_vec(); cat.extend_from_slice(&by);
+            out.push(format!("pbunk {} {} {} {} {}", fl, s.sexp(), i, hex(&with_unknown(r, &s, i, &cat)), hex(&cat)));
+            out.push(format!("pbilv {} {} {} {} {}", fl, s.sexp(), i, hex(&interleave(r, &s, i, &cat)), hex(&cat)));
+        }
+    }
+    // unknown groups at the edge of the budget, at the top level (100 levels are skipped, 101 are refused: both sides agree on the error)
+    let s = "(schema (msg (f 1 int32 req)))";
+    for d in [1usize, 50, 99, 100] { out.push(format!("pbunk hm {} 0 {} 0805", s, hex(&{ let mut v = vec![8u8, 5]; v.extend(group_ladder(7, d, false)); v }))); }
 }
